@@ -412,8 +412,9 @@ void write_patched_result_to_file(const Patch& patch, const std::string& output_
         if (new_mode_copy != 0) {
             auto perms = static_cast<filesystem::perms>(new_mode_copy) & filesystem::perms::mask;
             filesystem::permissions(path, perms);
-        } else if (permission_result.needed_to_fix_permissions) {
-            // Restore permissions to before they were changed.
+        } else if (permission_result.old_permissions != filesystem::perms::unknown) {
+            // Restore permissions to what they were, we may have changed them to be able to write to
+            // the file, or be writing to a brand new file as the old one was moved to be the backup.
             filesystem::permissions(path, permission_result.old_permissions);
         }
     };
